@@ -50,7 +50,8 @@ RULE = ("Polygons are built by construction in a local frame and then scaled by 
         "{2^-13, 2^-7, 8, 1024} must give exactly k^2 A, k c, k^3 V (bit for bit) and for k in {1e-4, 1e-2, 10, 1e3} the "
         "same within the a-priori bound, each scaled voxel also against its own exact values (grid: total_volume of the "
         "scaled grid for one decimal and one binary k); radial offsets also 1e4..2e6 sizes at a height of a few sizes "
-        "(R = 10 m, 1e-5 m cell); offsets are reduced until sum|x y|/(2 area) <= 1e9; non-trivial = concave or >=5 vertices. Every voxel is constructed from a drawn container kind (list of lists, list of tuples, list of "
+        "(R = 10 m, 1e-5 m cell); offsets are reduced until sum|x y|/(2 area) <= 1e9; coordinates are multiples of 2^floor(log2(1e-13 x diameter)) (equal or >= 1e-13 "
+        "cell sizes apart: no subnormal radii, for which the CSG cone height |dz| r1/(r1-r2) underflows - outside the usable domain); non-trivial = concave or >=5 vertices. Every voxel is constructed from a drawn container kind (list of lists, list of tuples, list of "
         "Point2D, C-contiguous float64 (n,2) ndarray, strided ndarray view; grids also one (m,n,2) ndarray): the caller's "
         "container must be bit-identical after construction, is then shifted and reversed in place by the caller, and "
         "area/centroid/volume/vertices are re-read (must be unchanged; vertices = the input polygon as a cyclic sequence). "
@@ -436,6 +437,22 @@ def local_shape(draw, kinds):
     return {"kind": kind, "local": loc, "kernel": [0.0, 0.0], "tris": None}
 
 
+def quantise(verts):
+    """Round every coordinate to a multiple of q = 2^floor(log2(1e-13 x diameter)).  Coordinates (and coordinate
+    differences) are then either exactly equal or at least 1e-13 cell sizes apart: no subnormal radii such as r = 8e-313
+    next to r = 0, which Hypothesis produces from denormal shear / rotation parameters.  Such inputs are outside the
+    usable domain of the constructor, not a finding: the CSG builder evaluates |dz| * r1 / (r1 - r2) for a cone height,
+    which underflows to 0 for a subnormal radius (raysect then rejects the Cone).  Dyadic lattice coordinates are
+    multiples of q already and stay bit-identical."""
+    r1, r2 = min(p[0] for p in verts), max(p[0] for p in verts)
+    z1, z2 = min(p[1] for p in verts), max(p[1] for p in verts)
+    diam = math.hypot(r2 - r1, z2 - z1)
+    if not (diam > 1e-280):
+        return verts
+    q = 2.0 ** math.floor(math.log2(diam * 1e-13))
+    return [[round(p[0] / q) * q, round(p[1] / q) * q] for p in verts]
+
+
 def place(shape, s, g, h, ar=1.0, az=1.0):
     """scale by s (and by the anisotropy factors ar, az <= 1 along r, z: slivers), put the innermost vertex at r = g*s
     (g = 0: on the axis), shift heights by h*s.  An orientation-preserving affine map: simple polygons stay simple,
@@ -444,7 +461,7 @@ def place(shape, s, g, h, ar=1.0, az=1.0):
     xmin = min(p[0] for p in loc)
     r_lo = g * s
     sr, sz = s * ar, s * az
-    verts = [[r_lo + (p[0] - xmin) * sr, h * s + p[1] * sz] for p in loc]
+    verts = quantise([[r_lo + (p[0] - xmin) * sr, h * s + p[1] * sz] for p in loc])
     kern = None
     if shape["kernel"] is not None:
         kern = [r_lo + (shape["kernel"][0] - xmin) * sr, h * s + shape["kernel"][1] * sz]
@@ -583,8 +600,8 @@ def grid_strategy(draw):
                 loc = sh["local"]
                 x0, x1 = min(p[0] for p in loc), max(p[0] for p in loc)
                 y0, y1 = min(p[1] for p in loc), max(p[1] for p in loc)
-                polys = [[[ra + (p[0] - x0) / (x1 - x0) * (rb - ra) * 0.999, za + (p[1] - y0) / (y1 - y0) * (zb - za) * 0.999]
-                          for p in loc]]
+                polys = [quantise([[ra + (p[0] - x0) / (x1 - x0) * (rb - ra) * 0.999, za + (p[1] - y0) / (y1 - y0) * (zb - za) * 0.999]
+                                   for p in loc])]
             for p in polys:
                 k = draw(st.integers(0, len(p) - 1))
                 p = p[k:] + p[:k]
